@@ -342,8 +342,13 @@ func runC05(c *fw.Case) {
 	ignore := map[string]bool{}
 	switch path {
 	case 0:
+		os.Mkdir(dst, 0755)
+		if c.ChanceAdded(1, 3, "c05.prior") {
+			if prepopulate(c, dst, want) > 0 {
+				c.Fault("destination-not-empty")
+			}
+		}
 		if catch(c, "UnTar", func() {
-			os.Mkdir(dst, 0755)
 			err = desync.UnTar(context.Background(), bytes.NewReader(archive), desync.NewLocalFS(dst, desync.LocalFSOptions{}))
 		}) {
 			return
